@@ -8,7 +8,8 @@
 From Coq Require Import String List.
 From CMinx Require Import Base.Str Model.Lexer Model.Parser Model.DocTypes Model.Aggregator
      Spec.EntrySpec Spec.AggSpec Gen.SourceLiterals Proofs.AggInv Proofs.SpecLinks Proofs.LiteralsMatch
-     Base.PySem Gen.PySource Proofs.SourceMatch Model.Writer.
+     Base.PySem Gen.PySource Proofs.SourceMatch Model.Writer
+     Proofs.SourceMatch2.
 Import ListNotations.
 
 (* the main refinement: under default settings the entry list (kind and name, in order) of a
@@ -128,3 +129,41 @@ Theorem C02_process_generic_matches_source :
     = PySource.DocumentationAggregator_process_generic_command command c doc (documented st).
 Proof. exact process_generic_matches_source. Qed.
 Print Assumptions C02_process_generic_matches_source.
+
+(* py2coq batch 4: the stateful aggregator methods as regenerated from aggregator.py on every run (positions in self.documented stand for object references) equal the model *)
+Theorem C02_process_function_matches_source :
+  forall fl trigger strip_fn strip_mac strip_mem c doc docd st,
+    result_map def_view (process_def trigger strip_fn strip_mac false c doc docd st)
+    = PySource.DocumentationAggregator_process_function c doc
+        (settings_of fl trigger strip_fn strip_mac strip_mem)
+        (documented st) (py_def_stack (def_stack st)).
+Proof. exact process_function_matches_source. Qed.
+Print Assumptions C02_process_function_matches_source.
+
+Theorem C02_process_macro_matches_source :
+  forall fl trigger strip_fn strip_mac strip_mem c doc docd st,
+    result_map def_view (process_def trigger strip_fn strip_mac true c doc docd st)
+    = PySource.DocumentationAggregator_process_macro c doc
+        (settings_of fl trigger strip_fn strip_mac strip_mem)
+        (documented st) (py_def_stack (def_stack st)).
+Proof. exact process_macro_matches_source. Qed.
+Print Assumptions C02_process_macro_matches_source.
+
+Theorem C02_process_def_frame :
+  forall trigger strip_fn strip_mac is_macro c doc docd st st',
+    process_def trigger strip_fn strip_mac is_macro c doc docd st = Ok st' ->
+    class_stack st' = class_stack st /\ awaiting st' = awaiting st
+    /\ origins st' = origins st ++ [docd].
+Proof. exact process_def_frame. Qed.
+Print Assumptions C02_process_def_frame.
+
+Theorem C02_enterDocumented_command_matches_source :
+  forall fl trigger strip_fn strip_mac strip_mem doc_text c st,
+    result_map (fun st' => unghost_view (doc_view st'))
+      (enter_documented trigger strip_fn strip_mac doc_text c st)
+    = option_map unghost_view
+        (PySource.DocumentationAggregator_enterDocumented_command (doc_text, c)
+           (settings_of fl trigger strip_fn strip_mac strip_mem)
+           (documented st) (py_class_stack (class_stack st)) (awaiting st) (py_def_stack (def_stack st))).
+Proof. exact enterDocumented_command_matches_source. Qed.
+Print Assumptions C02_enterDocumented_command_matches_source.
